@@ -61,8 +61,13 @@ Definition ord_pass (s : mesh) (hfs : list nat) (self : nat) (first order : list
 Definition order_top : list nat := [2; 4; 3; 5].
 Definition order_bot : list nat := [3; 4; 2; 5].
 
+Definition disjointb (a b : list nat) : bool := forallb (fun x => negb (memb x b)) a.
+
+(* since the fix "hex halfface ordering check must require vertex-disjoint top and bottom faces" (.cc:280-290): no from-vertex
+   of the second halfface is a from-vertex of the first *)
 Definition check_halfface_ordering (s : mesh) (hfs : list nat) : bool :=
-  ord_pass s hfs (hx hfs 0) order_top order_top && ord_pass s hfs (hx hfs 1) order_bot order_bot.
+  ord_pass s hfs (hx hfs 0) order_top order_top && ord_pass s hfs (hx hfs 1) order_bot order_bot &&
+  disjointb (hf_vertices s (hx hfs 1)) (hf_vertices s (hx hfs 0)).
 
 (* ------------------------------------------------------------------ a list that may hold invalid handles *)
 
@@ -98,11 +103,14 @@ Definition reorder_bottom (s : mesh) (hfs : list nat) : option nat :=
   get_adjacent_halfface s hf1 he3 hfs.
 
 (* after the re-ordering (.cc:155-163): every handle valid and check_halfface_ordering of the re-ordered list, or the
-   call is rejected; only then the base add_cell (with its own closedness test) *)
+   call is rejected; only then the base add_cell (with its own closedness test).  Since the fix "checked hex add_cell must
+   reject cells without eight distinct vertices" the checked call first requires exactly eight distinct vertices over the six
+   halffaces (.cc:103-115: std::set of the from-vertices) *)
 Definition hex_add_cell (s : mesh) (hfs : list nat) (check : bool) : mesh * option nat :=
   if negb (length hfs =? 6) then (s, None)
   else if negb (forallb (fun hf => length (face_at s (hf / 2)) =? 4) hfs) then (s, None)
   else if negb check then add_cell s hfs false
+  else if negb (length (hfs_vertex_set s hfs) =? 8) then (s, None)
   else if check_halfface_ordering s hfs then add_cell s hfs true
   else
     let ord := reorder_top s hfs in
@@ -141,6 +149,7 @@ Definition hex_quads (vs : list nat) : list (list nat) :=
 Definition hex_add_cell_v (s : mesh) (vs : list nat) (check : bool) : mesh * option nat :=
   if negb (full_bu s) then (s, None)
   else if negb (length vs =? 8) then (s, None)
+  else if check && negb (length (set_of_list vs) =? 8) then (s, None)     (* same fix, .cc:301-307: std::set of the eight handles *)
   else
     let quads := hex_quads vs in
     let found := map (find_halfface_extensive s) quads in          (* all six lookups come first *)
@@ -234,8 +243,6 @@ Definition unique_neighbour (s : mesh) (l : list nat) (self he : nat) : option n
   | [x] => Some x
   | _ => None
   end.
-
-Definition disjointb (a b : list nat) : bool := forallb (fun x => negb (memb x b)) a.
 
 Definition olist_eqb (a : list (option nat)) (b : list nat) : bool :=
   (length a =? length b) && forallb (fun p => match fst p with Some x => x =? snd p | None => false end) (combine a b).
